@@ -132,6 +132,13 @@ def r2(c):
             okb = True
     c.ob('deny-reply/not-broadcast', okb, 'deny reply is dominated by !destination.is_broadcast()',
          'is_broadcast sites on the deny path: %d' % len(isb), rep.loc())
+    # always answered: from the Deny edge every path to the end of handle_frame sends that reply, except for a broadcast
+    bc_true = []
+    for cs in isb:
+        bc_true += q.bool_edges(b, cs)['true']
+    oka, leak = q.always_passes(b, d, {rep.node}, bc_true)
+    c.ob('deny-reply/always', oka, 'a denied request is always answered with that exception (the only silent exit is the broadcast destination) - whatever its unit id',
+         'returns reachable without the reply: %s' % [loc_of(b, n[1]) for n in leak], rep.loc())
     # the deny path ends the frame: nothing of the Allow path is reachable from it
     a = allow[0] if allow else None
     if a is not None:
@@ -202,7 +209,15 @@ def r4(c):
     h_ok = bool(arms.get('Handler'))
     for e, reg in arms.get('Handler', []):
         inarm = [x for x in ex if x['node'] in reg]
-        h_ok = h_ok and bool(inarm) and all(x['kind'] == 'copy' and x['sem'].kind == 'call' and x['sem'].cs is chk and not x['sem'].proj for x in inarm)
+        oc_ = q.outcomes(b, chk)
+
+        def same_verdict(x):
+            """the exit returns check_authorization's value: the value itself, or - when the verdict is matched on - the
+            same-named variant on each of its edges"""
+            if x['kind'] == 'copy' and x['sem'].kind == 'call' and x['sem'].cs is chk and not x['sem'].proj:
+                return True
+            return x['kind'] == 'agg' and x['adt'] == AUTH and x['variant'] in ('Allow', 'Deny') and q.dominated_by_any(b, oc_.get(x['variant'], []), x['node'])
+        h_ok = h_ok and bool(inarm) and all(same_verdict(x) for x in inarm)
     covered = set()
     for v in ('None', 'Handler'):
         for e, reg in arms.get(v, []):
